@@ -10,7 +10,8 @@ from props.c12 import workdir, run_both
 THEOREMS = ["IgVerif.C13.c13_merge_order_independent", "IgVerif.C13.c13_flag_facts", "IgVerif.mergeAll_perm", "IgVerif.orFlag_idem",
             "IgVerif.C13.c13_merge_commutes", "IgVerif.C13.c13_global_union", "IgVerif.C13.c13_fully_defined_wins", "IgVerif.C13.c13_defined_replaces_forward",
             "IgVerif.C13.c13_module_range", "IgVerif.C13.c13_file_range", "IgVerif.C13.c13_cache_coherent",
-            "IgVerif.C13.c13_lookup_reflects_all_loaded", "IgVerif.cacheInv_reachable", "IgVerif.lookup_answer"]
+            "IgVerif.C13.c13_lookup_reflects_all_loaded", "IgVerif.cacheInv_reachable", "IgVerif.lookup_answer",
+            "IgVerif.C13.c13_next_index_monotone", "IgVerif.C13.c13_ranges_disjoint", "IgVerif.modInv_reachable", "IgVerif.mergeFrom_nextIndex"]
 PARTIAL = [("c13_order_iso (loadAll (perm dbs) is isomorphic to loadAll dbs)",
             "order independence up to index renaming is not a Lean theorem; it is decided per run by loading every permutation "
             "(all k! orders, k<=3 quick / k<=4 thorough) in the real library, comparing with the model and with the disjoint-union oracle"),
